@@ -8,6 +8,7 @@ import (
 	"strings"
 
 	hdf5 "github.com/scigolib/hdf5"
+	"github.com/scigolib/hdf5/internal/core"
 )
 
 // ---- attribute values --------------------------------------------------------------------------
@@ -159,6 +160,8 @@ type Op struct {
 	Target string   `json:"target,omitempty"`
 	File   string   `json:"file,omitempty"`
 	Links  [][2]string `json:"links,omitempty"` // densegroup: link name -> target path
+	Alias  string      `json:"alias,omitempty"` // dataset: pass the very same dims/chunk slices as the earlier dataset at this path
+	Delta  int         `json:"delta,omitempty"` // attrfit: the string value is sized so that the object's header message area becomes 255+Delta bytes
 	Short  int      `json:"short,omitempty"` // write: deliberately wrong element count (+/-)
 	BadTy  bool     `json:"bad_ty,omitempty"` // write: deliberately wrong Go type
 }
@@ -177,6 +180,7 @@ type Obj struct {
 	Dims    []uint64
 	Raw     []byte // row-major element bytes of the current extent; nil before the first full write
 	Written bool
+	VL      [][]byte // variable-length datasets: the bytes of every element (Raw is then nil)
 	Attrs   map[string]*MAttr
 	Links   map[string]*Link // groups
 	Order   []string         // creation order of link names
@@ -302,6 +306,7 @@ type Exec struct {
 	Opts   []interface{} // extra CreateForWrite options (rebalancing etc.)
 	Reopened bool
 	closed bool
+	specs  map[string]*DSpec // dataset specs as passed to the library (for slice aliasing between datasets)
 }
 
 func NewExec(file string, sb int, opts ...interface{}) (*Exec, error) {
@@ -384,8 +389,30 @@ func (e *Exec) Apply(op Op) (st Step) {
 			st.Broken = "dataset op without spec"
 			return
 		}
-		ds, err := op.D.Create(e.FW, op.Path)
+		spec := op.D
+		if e.specs == nil {
+			e.specs = map[string]*DSpec{}
+		}
+		if a := e.specs[op.Alias]; a != nil && eqU64(a.Dims, op.D.Dims) {
+			// hand the library the very same slice objects a previous CreateDataset received: a writer that keeps
+			// (and later modifies) the caller's slices couples the two datasets
+			cp := *op.D
+			cp.Dims = a.Dims
+			if a.Chunk != nil && eqU64(a.Chunk, op.D.Chunk) {
+				cp.Chunk = a.Chunk
+			}
+			if a.MaxDims != nil && eqU64(a.MaxDims, op.D.MaxDims) {
+				cp.MaxDims = a.MaxDims
+			}
+			spec = &cp
+		}
+		dimsBefore := append([]uint64{}, spec.Dims...)
+		ds, err := spec.Create(e.FW, op.Path)
+		e.specs[op.Path] = spec
 		st.Err = errs(err)
+		if !eqU64(dimsBefore, spec.Dims) {
+			st.Broken = fmt.Sprintf("CreateDataset modified the caller's dims slice: %v -> %v", dimsBefore, spec.Dims)
+		}
 		if err == nil && parentOK && !exists {
 			o := m.newObj("dataset")
 			spec := *op.D
@@ -439,6 +466,15 @@ func (e *Exec) Apply(op Op) (st Step) {
 			return
 		}
 		dims := o.Dims
+		if k, _ := o.Spec.Base(); k == "vl" {
+			goVal, elems := o.Spec.VLData(dims, op.Seed)
+			err = h.Write(goVal)
+			st.Err = errs(err)
+			if err == nil {
+				o.VL, o.Raw, o.Written = elems, nil, true
+			}
+			break
+		}
 		raw, goVal := o.Spec.Data(dims, op.Seed, op.Mode)
 		bad := false
 		if op.Short != 0 {
@@ -494,15 +530,20 @@ func (e *Exec) Apply(op Op) (st Step) {
 				}
 			}
 		}
-		if ok {
-			st.Must = "ok"
-		} else {
+		switch {
+		case !ok:
 			st.Must = "fail"
+		case !e.Reopened:
+			st.Must = "ok" // on a handle from OpenDataset resizing is not supported (an error is fine, success must be right)
 		}
 		err = h.Resize(op.Dims)
 		st.Err = errs(err)
 		if err == nil && ok {
-			o.Raw = ResizeRaw(o.Raw, o.Dims, op.Dims, o.Spec.ElemSize(), o.Written)
+			if o.VL != nil {
+				o.VL, o.Written = nil, false // element references of a resized vlen dataset are not modelled until rewritten
+			} else {
+				o.Raw = ResizeRaw(o.Raw, o.Dims, op.Dims, o.Spec.ElemSize(), o.Written)
+			}
 			o.Dims = append([]uint64{}, op.Dims...)
 		}
 	case "attr":
@@ -534,6 +575,42 @@ func (e *Exec) Apply(op Op) (st Step) {
 		}
 		st.Err = errs(err)
 		if err == nil && ma != nil && op.Name != "" {
+			o.Attrs[op.Name] = ma
+		}
+	case "attrfit":
+		// a string attribute sized so that the header message area of the (dataset) object becomes 255+Delta bytes
+		o := m.Resolve(op.Path)
+		if o == nil || o.Kind != "dataset" {
+			st.Err = "skipped: no such dataset in model"
+			return
+		}
+		h, err := e.handle(o, op.Path)
+		if err != nil {
+			st.Err = "open: " + errs(err)
+			return
+		}
+		used, ok := e.headerBytes(op.Path, op.Name)
+		if !ok {
+			st.Err = "skipped: header not readable / attribute storage already dense"
+			return
+		}
+		// message = 4 (prefix) + attribute message; find the value length by encoding candidates
+		n := -1
+		for l := 0; l < 300; l++ {
+			if sz := attrMessageSize(op.Name, l); sz > 0 && used+4+sz == 255+op.Delta {
+				n = l
+				break
+			}
+		}
+		if n < 0 {
+			st.Err = "skipped: no string length reaches the target size"
+			return
+		}
+		a := AttrVal{Kind: "str", N: n, Seed: op.Seed}
+		v, ma := a.Go()
+		err = h.WriteAttribute(op.Name, v)
+		st.Err = errs(err)
+		if err == nil {
 			o.Attrs[op.Name] = ma
 		}
 	case "delattr":
@@ -655,4 +732,53 @@ func ResizeRaw(old []byte, oldDims, newDims []uint64, es int, written bool) []by
 		}
 	}
 	return out
+}
+
+// headerBytes returns the size of the object's header message area without the attribute named skip, read from
+// the file as it is on disk now (writes are unbuffered); ok=false if the object already uses dense attribute storage.
+func (e *Exec) headerBytes(path, skip string) (int, bool) {
+	f, err := hdf5.Open(e.File)
+	if err != nil {
+		return 0, false
+	}
+	defer f.Close()
+	var addr uint64
+	found := false
+	f.Walk(func(p string, o hdf5.Object) {
+		if d, ok := o.(*hdf5.Dataset); ok && p == path {
+			addr, found = d.Address(), true
+		}
+	})
+	if !found {
+		return 0, false
+	}
+	hdr, err := core.ReadObjectHeader(f.Reader(), addr, f.Superblock())
+	if err != nil {
+		return 0, false
+	}
+	total := 0
+	for _, msg := range hdr.Messages {
+		if msg.Type == core.MsgAttributeInfo {
+			return 0, false
+		}
+		if msg.Type == core.MsgAttribute {
+			if a, err := core.ParseAttributeMessage(msg.Data, binary.LittleEndian); err == nil && a.Name == skip {
+				continue
+			}
+		}
+		total += 4 + len(msg.Data)
+	}
+	return total, true
+}
+
+// attrMessageSize is the encoded size of a scalar string attribute message with the given name and value length.
+func attrMessageSize(name string, valueLen int) int {
+	dt := &core.DatatypeMessage{Class: core.DatatypeString, Size: uint32(valueLen + 1)}
+	ds := &core.DataspaceMessage{Dimensions: []uint64{1}}
+	b, err := core.EncodeAttributeFromStruct(&core.Attribute{Name: name, Datatype: dt, Dataspace: ds, Data: make([]byte, valueLen+1)},
+		&core.Superblock{Version: 2, OffsetSize: 8, LengthSize: 8, Endianness: binary.LittleEndian})
+	if err != nil {
+		return -1
+	}
+	return len(b)
 }
